@@ -5,6 +5,8 @@
   R3 inference dispatch exhaustiveness (cardinality & multiplicity, siblings)
   R4 declared-cardinality enforcement sites
   R5 four bound facts forced by set semantics
+  R6 bound facts under stated assumptions (three-valued path analysis)
+  R7 which operators narrow a FILTER; UNION disjointness over lineages
 """
 from __future__ import annotations
 
@@ -357,6 +359,423 @@ def run(repo: Repo, ctx) -> None:
            'operator results are declared UNIQUE without the '
            'single-cardinality test', mo.loc,
            sample='elif card.is_single(): return UNIQUE')
+
+
+    _r6(repo, ctx)
+    _r7(repo, ctx)
+
+
+ZERO_LOWER = ('AT_MOST_ONE', 'MANY')
+
+
+def _zeroes_lower(v: ast.expr) -> bool:
+    """The expression has lower bound zero whatever its operands are."""
+    t = norm(v)
+    if t in ZERO_LOWER:
+        return True
+    if isinstance(v, ast.Call):
+        f = call_name(v)
+        if f == '_bounds_to_card' and v.args and norm(v.args[0]) == 'CB_ZERO':
+            return True
+        if f == 'cartesian_cardinality' and v.args and isinstance(
+                v.args[0], (ast.List, ast.Tuple)) and any(
+                    norm(e) in ZERO_LOWER for e in v.args[0].elts):
+            return True
+    return False
+
+
+# (id, function, assumed facts, requirement, why the semantics force it)
+#   requirement: ('zero', var)       every open path rebinds var to a value
+#                                    with lower bound zero
+#                ('ret', {texts})    every open return yields one of texts
+#                ('retzero',)        every open return has lower bound zero
+#                ('pass', callname)  every open path calls callname
+#                ('guard', callname, test-text, label)  the call is only
+#                                    reachable through that branch
+BOUND_FACTS = [
+    ('select:limit-not-constant', '__infer_select_stmt',
+     {'ir.limit is not None': True, 'ir.limit': True,
+      'isinstance(ir.limit.expr, irast.IntegerConstant)': False},
+     ('zero', 'stmt_card'),
+     'LIMIT <expr> may evaluate to 0: SELECT {1,2} LIMIT <int64>$n is empty '
+     'for n = 0'),
+    ('select:limit-zero', '__infer_select_stmt',
+     {'ir.limit is not None': True, 'ir.limit': True,
+      'isinstance(ir.limit.expr, irast.IntegerConstant)': True,
+      "ir.limit.expr.value == '0'": True,
+      "ir.limit.expr.value == '1'": False},
+     ('zero', 'stmt_card'), 'LIMIT 0 is empty'),
+    ('select:offset', '__infer_select_stmt',
+     {'ir.offset is not None': True, 'ir.offset': True},
+     ('zero', 'stmt_card'), 'OFFSET n may skip every element'),
+    ('select:iterator', '__infer_select_stmt',
+     {'ir.iterator_stmt': True, 'ir.iterator_stmt is not None': True,
+      'ir.card_inference_override': False},
+     ('pass', 'cartesian_cardinality'),
+     'FOR x IN S UNION e has one batch of results per element of S'),
+    ('stmt:filter', '_infer_stmt_cardinality',
+     {'ir.where': True, 'ir.where is not None': True},
+     ('zero', 'result_card'), 'a FILTER may reject every element'),
+    ('stmt:filter-narrowing-needs-unique', '_infer_stmt_cardinality', {},
+     ('guard', '_analyse_filter_clause', 'result_mult.is_unique()', 'T'),
+     'an equality filter on an exclusive pointer selects at most one '
+     '*distinct* object; with duplicates in the input it can select several'),
+    ('insert:unless-conflict', '__infer_insert_stmt',
+     {'ir.on_conflict': True, 'ir.on_conflict is not None': True},
+     ('retcall', '_infer_on_conflict_cardinality'),
+     'INSERT ... UNLESS CONFLICT returns nothing when the conflict occurs'),
+    ('on-conflict:base', '_infer_on_conflict_cardinality',
+     {'on_conflict.else_ir': False, 'on_conflict.else_ir is not None': False},
+     ('leaf', 'card', {'AT_MOST_ONE', 'MANY'}),
+     'UNLESS CONFLICT without ELSE yields the empty set on conflict'),
+    ('typecast:json-null', '__infer_typecast',
+     {'typeutils.is_json(ir.from_type)': True,
+      'ir.cardinality_mod == qlast.CardinalityModifier.Required': False},
+     ('zero', 'card'), "<str>to_json('null') is the empty set"),
+    ('param:optional', '__infer_param', {'ir.required': False},
+     ('ret', {'AT_MOST_ONE', 'MANY'}), 'an optional parameter may be empty'),
+    ('inlined-param:optional', '__infer_inlined_param',
+     {'ir.required': False},
+     ('ret', {'AT_MOST_ONE', 'MANY'}), 'an optional parameter may be empty'),
+    ('const-set:several', '__infer_const_set',
+     {'len(ir.elements) == 1': False},
+     ('ret', {'AT_LEAST_ONE', 'MANY'}),
+     'a constant set of several elements has several elements'),
+    ('typemod:set-of', '_typemod_to_card',
+     {'typemod is qltypes.TypeModifier.SetOfType': True},
+     ('ret', {'MANY'}), 'a SET OF function may return any number of rows'),
+    ('typemod:optional', '_typemod_to_card',
+     {'typemod is qltypes.TypeModifier.SetOfType': False,
+      'typemod is qltypes.TypeModifier.OptionalType': True},
+     ('ret', {'AT_MOST_ONE', 'MANY'}), 'an OPTIONAL function may return {}'),
+    ('group', '__infer_group_stmt', {}, ('ret', {'MANY'}),
+     'GROUP yields one element per group, zero for empty input'),
+    ('trigger-anchor', '__infer_trigger_anchor', {}, ('ret', {'MANY'}),
+     '__new__/__old__ range over all affected objects'),
+    ('filter-clause:needs-exclusive', '_analyse_filter_clause',
+     {'extract_exclusive_filters(result_set, filter_clause, scope_tree, ctx)':
+      False},
+     ('ret', {'result_card'}),
+     'without an exclusive-constraint match the filter keeps the upper '
+     'bound of its input'),
+    ('func:preserves-optionality', '__infer_func_call',
+     {'ir.preserves_optionality': True},
+     ('leaf', 'lower', {'min(arg_lower)'}),
+     'a function preserving optionality is empty when its argument is'),
+    ('func:declared-lower', '__infer_func_call',
+     {'ir.preserves_optionality': False,
+      "ir.func_shortname == sn.QualName('std', 'assert_exists')": False},
+     ('leaf', 'lower', {'ret_lower_bound', 'CB_ZERO'}),
+     'only assert_exists turns a possibly-empty argument into a non-empty '
+     'result'),
+    ('func:force-multi', '__infer_func_call',
+     {'force_multi': True},
+     ('leaf', 'upper', {'CB_MANY'}),
+     'a multi OPTIONAL argument multiplies the calls'),
+    ('func:declared-upper', '__infer_func_call',
+     {'force_multi': False, 'ir.preserves_upper_cardinality': False},
+     ('leaf', 'upper', {'ret_upper_bound', 'CB_MANY'}),
+     'without upper-cardinality preservation the declared return '
+     'modifier bounds the result'),
+    ('filters:multi-operands', 'extract_filters',
+     {'isinstance(expr, irast.OperatorCall)': True,
+      'str(expr.func_shortname)': 'std::=', 'op_card.is_multi()': True},
+     ('ret', {'[]'}),
+     'an equality whose operands are multi holds for several objects'),
+    ('filters:single-rhs', 'extract_filters', {},
+     ('guardret', '[(pointers, right)]',
+      'infer_cardinality(right, scope_tree=scope_tree, ctx=ctx).is_single()',
+      'T'),
+     '.p = {a, b} selects up to two objects even when p is exclusive'),
+    ('exclusive:ptr-needs-constraint', 'extract_exclusive_filters',
+     {'_all_have_exclusive([ptr], ctx)': False},
+     ('unreach', 'results.append(((ptr, expr),))'),
+     'only a pointer with an exclusive constraint identifies one object'),
+    ('exclusive:except-constraints-ignored',
+     'get_object_exclusive_constraints',
+     {'constr.get_except_expr(schema)': True},
+     ('unreach', 'cnstrs[constr] = pointer_refs'),
+     'an exclusive constraint with EXCEPT does not cover every object'),
+    ('exclusive:delegated-constraints-ignored',
+     'get_object_exclusive_constraints',
+     {'constr.get_delegated(schema)': True},
+     ('unreach', 'cnstrs[constr] = pointer_refs'),
+     'a delegated constraint is enforced per subtype only'),
+    ('exclusive:all-pointers-filtered',
+     'get_object_exclusive_constraints',
+     {'pointer_refs.issubset(ptr_set)': False},
+     ('unreach', 'cnstrs[constr] = pointer_refs'),
+     'a compound exclusive constraint identifies one object only when '
+     'every pointer in it is filtered on'),
+    # ---- multiplicity ---------------------------------------------------
+    ('M:func:set-returning', 'M:__infer_func_call',
+     {'card.is_single()': False, 'str(ir.func_shortname)': 'std::other'},
+     ('ret', {'DUPLICATE'}),
+     'a set-returning function may repeat values'),
+    ('M:oper:if-multi-condition', 'M:__infer_oper_call',
+     {'op_name': 'std::IF', 'cards[1].is_single()': False},
+     ('ret', {'DUPLICATE'}),
+     'a multi condition evaluates the branches several times'),
+    ('M:oper:other', 'M:__infer_oper_call',
+     {'op_name': 'std::other', 'card.is_single()': False},
+     ('ret', {'DUPLICATE'}), '{1,2} - {1,2} contains 0 twice'),
+    ('M:oper:plus-two-multi', 'M:__infer_oper_call',
+     {'op_name': 'std::+', 'card.is_single()': False,
+      'result.is_duplicate()': False,
+      'len([card for card in cards if card.is_multi()]) > 1': True},
+     ('ret', {'DUPLICATE'}), '{1,2} + {1,2} contains 3 twice'),
+    ('M:set:plain-property', 'M:_infer_set_inner',
+     {'isinstance(ir.expr, irast.Pointer)': True,
+      'isinstance(ptr.ptrref, irast.TupleIndirectionPointerRef)': False,
+      'irtyputils.is_object(ir.typeref)': False,
+      'expr_mult is not None': False,
+      'pointer.is_exclusive(schema)': False,
+      'path_mult.is_duplicate()': True,
+      'irutils.is_trivial_free_object(ir)': False,
+      'path_mult.fresh_free_object': False},
+     ('leaf', 'path_mult', {'DUPLICATE'}),
+     'two objects may hold the same value in a non-exclusive property'),
+    ('M:set:opaque-tuple', 'M:_infer_set_inner',
+     {'isinstance(ir.expr, irast.Pointer)': True,
+      'isinstance(ptr.ptrref, irast.TupleIndirectionPointerRef)': True,
+      'isinstance(src_mult, ContainerMultiplicityInfo)': False,
+      'path_mult.is_duplicate()': True,
+      'irutils.is_trivial_free_object(ir)': False,
+      'path_mult.fresh_free_object': False},
+     ('leaf', 'path_mult', {'DUPLICATE'}),
+     'elements of an opaque tuple set may repeat'),
+    ('M:const-set:repeated', 'M:__infer_const_set',
+     {'len(ir.elements) == len(els)': False},
+     ('ret', {'DUPLICATE'}), '{1, 1} contains 1 twice'),
+    ('M:const-set:non-constant', 'M:__infer_const_set',
+     {'isinstance(el, irast.BaseConstant)': False,
+      'len(ir.elements) == len(els)': False},
+     ('ret', {'DUPLICATE'}), 'unknown elements may coincide'),
+    ('M:typecheck:multi', 'M:__infer_typecheckop',
+     {'card.is_single()': False}, ('ret', {'DUPLICATE'}),
+     '{A, B} IS A yields true and false several times'),
+    ('M:for:duplicate-iterator', 'M:_infer_for_multiplicity',
+     {'isinstance(ir.result.expr, irast.InsertStmt)': False,
+      'itmult.is_duplicate()': True},
+     ('ret', {'DUPLICATE'}),
+     'FOR over a bag evaluates the body once per duplicate'),
+    ('M:for:not-disjoint', 'M:_infer_for_multiplicity',
+     {'isinstance(ir.result.expr, irast.InsertStmt)': False,
+      'itmult.is_duplicate()': False,
+      'result_mult.disjoint_union': False,
+      'result_mult.fresh_free_object': False},
+     ('ret', {'DUPLICATE'}),
+     'FOR x IN {1,2} UNION User repeats every User'),
+    ('M:group', 'M:__infer_group_stmt',
+     {'result_mult.fresh_free_object': False}, ('ret', {'DUPLICATE'}),
+     'GROUP results are not known to be distinct'),
+]
+
+
+def _r6(repo: Repo, ctx) -> None:
+    from ..absint import Facts, closed_edges, must_pass, open_nodes, \
+        open_returns
+    ctx.floor('C06.R6', 35)
+    for fid, fname, facts, req, why in BOUND_FACTS:
+        mod = CARD
+        if fname.startswith('M:'):
+            mod, fname = MULT, fname[2:]
+        fn = repo.func(f'{mod}.{fname}')
+        ctx.saw(fn)
+        g = CFG(fn.node)
+        F = Facts(facts, fn.node)
+        kind = req[0]
+        ok = False
+        got = ''
+        if kind == 'zero':
+            var = req[1]
+            tg = [n.id for n in g.nodes if n.kind == 'stmt' and isinstance(
+                n.ast, ast.Assign) and any(norm(t) == var
+                                           for t in n.ast.targets)
+                and _zeroes_lower(n.ast.value)]
+            ok = bool(tg) and must_pass(g, F, tg)
+            got = f'{len(tg)} zeroing assignment(s) of {var}'
+        elif kind == 'pass':
+            tg = [n.id for n in g.nodes if any(
+                call_name(c) == req[1] for c in g.node_calls(n))]
+            ok = bool(tg) and must_pass(g, F, tg)
+            got = f'{len(tg)} call(s) of {req[1]}'
+        elif kind == 'guard':
+            tg = [n.id for n in g.nodes if any(
+                call_name(c) == req[1] for c in g.node_calls(n))]
+            if not tg:
+                raise AnalysisError(f'C06.R6 {fid}: call {req[1]} not '
+                                    f'found in {fname}')
+            F = Facts({req[2]: req[3] != 'T'}, fn.node)
+            on = open_nodes(g, F)
+            ok = bool(F.used) and not (set(tg) & on)
+            got = f'{len(tg)} call(s), guard present={bool(F.used)}'
+            F.used.add('-')
+        elif kind == 'unreach':
+            on = open_nodes(g, F)
+            tg = [n.id for n in g.nodes if n.kind == 'stmt'
+                  and norm(n.ast) == req[1]]
+            if not tg:
+                raise AnalysisError(f'C06.R6 {fid}: statement {req[1]!r} '
+                                    f'not found in {fname}')
+            ok = bool(F.used) and not (set(tg) & on)
+            got = (f'{len(tg)} site(s), open={bool(set(tg) & on)}, '
+                   f'condition present={bool(F.used)}')
+            F.used.add('-')
+        elif kind == 'guardret':
+            tg = [n.id for n in g.nodes if n.kind == 'stmt' and isinstance(
+                n.ast, ast.Return) and n.ast.value is not None
+                and norm(n.ast.value) == req[1]]
+            if not tg:
+                raise AnalysisError(f'C06.R6 {fid}: return {req[1]} not '
+                                    f'found in {fname}')
+            F = Facts({req[2]: req[3] != 'T'}, fn.node)
+            on = open_nodes(g, F)
+            ok = bool(F.used) and not (set(tg) & on)
+            got = f'{len(tg)} return(s), guard present={bool(F.used)}'
+            F.used.add('-')
+        elif kind in ('ret', 'retcall'):
+            rets = open_returns(g, F)
+            lv = [norm(x) if kind == 'ret' else (
+                call_name(x) if isinstance(x, ast.Call) else norm(x))
+                for r in rets if r.value is not None
+                for x in F.leaves(r.value)]
+            want = req[1] if kind == 'ret' else {req[1]}
+            ok = bool(lv) and set(lv) <= want
+            got = sorted(set(lv))
+        elif kind == 'leaf':
+            var, want = req[1], req[2]
+            on = open_nodes(g, F)
+            asg = [g.nodes[i].ast for i in sorted(on)
+                   if g.nodes[i].kind == 'stmt' and isinstance(
+                       g.nodes[i].ast, ast.Assign) and any(
+                       norm(t) == var for t in g.nodes[i].ast.targets)]
+            lv = [norm(x) for a in asg for x in F.leaves(a.value)]
+            ok = bool(lv) and set(lv) <= want
+            got = sorted(set(lv))
+        closed_edges(g, F)
+        for r_ in open_returns(g, F):
+            if r_.value is not None:
+                F.leaves(r_.value)
+        if facts and not F.used and not ok and _mentions(fn, facts):
+            raise AnalysisError(
+                f'C06.R6 {fid}: none of the assumed conditions '
+                f'{sorted(facts)} occurs in {fname} any more; the fact '
+                f'cannot be decided')
+        ctx.ob('C06.R6', f'{fname}:{fid}', ok,
+               f'under {facts or "no assumption"} the inferred bound of '
+               f'{fname} is not forced as required ({got}); {why}',
+               fn.loc, sample=f'{req} <- {got}')
+
+
+# operators whose truth implies that both operands are non-empty and equal
+KEY_EQUALITY = {'std::=', 'std::IN'}
+CONJUNCTION = {'std::AND'}
+
+
+def _r7(repo: Repo, ctx) -> None:
+    """Which operators let a FILTER narrow the result to at most one."""
+    ctx.floor('C06.R7', 3)
+    ef = repo.func(f'{CARD}.extract_filters')
+    ctx.saw(ef)
+    eq_names: Set[str] = set()
+    rec_names: Set[str] = set()
+    seen = 0
+    for n in ast.walk(ef.node):
+        if not isinstance(n, ast.If):
+            continue
+        t = n.test
+        if not (isinstance(t, ast.Compare) and 'func_shortname' in norm(
+                t.left)):
+            continue
+        c = t.comparators[0]
+        names = [c.value] if isinstance(c, ast.Constant) else [
+            e.value for e in getattr(c, 'elts', [])
+            if isinstance(e, ast.Constant)]
+        seen += 1
+        body = ast.Module(body=n.body, type_ignores=[])
+        recurses = any(isinstance(x, ast.Call) and call_name(x) ==
+                       'extract_filters' for x in ast.walk(body))
+        yields = any(isinstance(x, ast.Return) and x.value is not None
+                     and not recurses and norm(x.value) != '[]'
+                     for x in ast.walk(body))
+        if recurses:
+            rec_names |= set(names)
+        elif yields:
+            eq_names |= set(names)
+    if seen < 2 or not eq_names:
+        raise AnalysisError('C06.R7: operator-name tests of extract_filters '
+                            'not found')
+    bad = eq_names - KEY_EQUALITY
+    ctx.ob('C06.R7', 'extract_filters:key-equality-operators', not bad,
+           f'extract_filters treats {sorted(bad)} like "=": such a test can '
+           f'hold for several objects (e.g. ?= holds for every object whose '
+           f'pointer is empty when the other side is empty), so FILTER on an '
+           f'exclusive pointer no longer implies AT_MOST_ONE', ef.loc,
+           sample=sorted(eq_names))
+    bad = rec_names - CONJUNCTION
+    ctx.ob('C06.R7', 'extract_filters:conjunction-operators', not bad,
+           f'extract_filters descends into the operands of {sorted(bad)}: '
+           f'only a conjunction passes an equality on to the whole filter',
+           ef.loc, sample=sorted(rec_names))
+    # the same extraction feeds multiplicity (disjoint UNION detection)
+    users = sorted({f.qualname for m in (CARD, MULT)
+                    for f in repo._funcs_of(repo.module(m))
+                    for c in ast.walk(f.node) if isinstance(c, ast.Call)
+                    and (call_name(c) or '').endswith('extract_filters')})
+    ctx.ob('C06.R7', 'extract_filters:users', len(users) >= 3, '', ef.loc,
+           sample=users, nontrivial=False)
+    # ---- UNION of object sets: disjointness over the whole lineage -------
+    mo = repo.func(f'{MULT}.__infer_oper_call')
+    arms = _name_arms(mo, var='op_name')
+    body = arms.get('std::UNION')
+    if not body:
+        raise AnalysisError('C06.R7: UNION arm of multiplicity inference '
+                            'not found')
+    mod = ast.Module(body=body, type_ignores=[])
+    calls = {c.func.attr for c in ast.walk(mod) if isinstance(c, ast.Call)
+             and isinstance(c.func, ast.Attribute)}
+    shallow = calls & {'children', 'get_bases', 'issubclass', 'get_ancestors',
+                       'ancestors'}
+    deep = 'descendants' in calls
+    assigns = [a for a in ast.walk(mod) if isinstance(a, ast.Assign)
+               and norm(a.targets[0]) == 'types_disjoint']
+    if not assigns:
+        raise AnalysisError('C06.R7: types_disjoint not found')
+    if not deep and not shallow:
+        raise AnalysisError('C06.R7: cannot tell how UNION operand lineages '
+                            'are computed')
+    ctx.ob('C06.R7', 'multiplicity:UNION:lineage-is-transitive',
+           deep and not (calls & {'children'}),
+           f'UNION operands are declared disjoint from {sorted(shallow)} '
+           f'instead of the full descendant sets: A UNION C with C a '
+           f'grandchild of A contains every C twice but is inferred UNIQUE',
+           mo.loc, sample=sorted(calls & ({'descendants'} | shallow)))
+    nonobj = [a for a in assigns if norm(a.value) == 'False']
+    ctx.ob('C06.R7', 'multiplicity:UNION:scalars-not-disjoint', bool(nonobj),
+           'UNION of non-object sets is assumed disjoint', mo.loc,
+           sample='else: types_disjoint = False')
+
+
+def _mentions(fn: FuncInfo, facts) -> bool:
+    """Does the function still consult any quantity the assumed conditions
+    talk about (attribute chains such as ir.limit)?  If not, the assumption
+    cannot matter and the requirement is decided on all paths."""
+    import re
+    text = norm(fn.node)
+    for k in facts:
+        for ch in re.findall(r'[A-Za-z_][A-Za-z_0-9]*(?:\.[A-Za-z_][A-Za-z_0-9]*)+', k):
+            if ch.split('.')[0] in ('irast', 'qltypes', 'qlast', 'typeutils',
+                                    'irtyputils', 'irutils', 'sn'):
+                continue
+            if ch in text:
+                return True
+    return False
+
+
+def _st(t: str) -> str:
+    from ..absint import _strip
+    return _strip(t)
 
 
 def _always_raises(fn: FuncInfo) -> bool:
